@@ -66,6 +66,25 @@ fn group_of(price: u128, a_to_b: bool, size: i32, approaching: bool) -> i32 {
 impl Monitor for C14 {
     fn after(&mut self, w: &mut World, obs: &Obs, acc: &mut Acc) {
         let name = obs.ix.name;
+        // ---------- the trade-enable time of a pool is fixed when its oracle is created: whatever later touches the
+        //            oracle (constants updates, swaps) must leave it, and the pool it belongs to, alone ----------
+        if obs.ok() {
+            for m in &obs.ix.metas {
+                let Some(post) = w.bank.data(&m.key).and_then(codec::Oracle::decode) else { continue };
+                if w.bank.get(&m.key).map(|a| a.owner != whirlpool::ID).unwrap_or(true) {
+                    continue;
+                }
+                if let Some(pre) = obs.pre.data(&m.key).and_then(codec::Oracle::decode) {
+                    acc.count("oracle_touches_checked");
+                    if post.trade_enable_timestamp != pre.trade_enable_timestamp || post.whirlpool != pre.whirlpool {
+                        acc.violation(format!("c14:trade_enable_time_changed:{name}"), format!("oracle {}: trade_enable_timestamp {} -> {}, whirlpool {} -> {}", m.key, pre.trade_enable_timestamp, post.trade_enable_timestamp, pre.whirlpool, post.whirlpool), json!({"instruction": ix_brief(&obs.ix)}));
+                    }
+                    if name == "set_adaptive_fee_constants" {
+                        acc.count("constants_updates_checked");
+                    }
+                }
+            }
+        }
         if !name.contains("swap") {
             return;
         }
